@@ -19,7 +19,7 @@ const (
 	ruleEnc = "Accept-Encoding rendered from a structure (codings and '*', weights as in the structured tier, whitespace, several lines) x offer lists: the result is an offer matched at the maximal positive weight " +
 		"(earliest such offer; when '*' ties with a named coding either the earliest or the earliest named one), empty or identity when nothing is acceptable; ParseAccept returns the codings of the structure. " +
 		"Non-trivial: >=2 offers share a weight, '*' competes with a named coding, a weight has more than 3 digits or a q=0 coding is present"
-	ruleHandler = "one API per case (1-3 GET operations with own or inherited produces lists of 1-4 entries incl. entries with parameters, API default type JSON or another), 4-8 requests with structured Accept headers " +
+	ruleHandler = "one API per case (1-3 GET operations with own or inherited produces lists of 1-4 entries incl. entries with parameters, API default type JSON or another), 6-12 requests with structured Accept headers " +
 		"through middleware.NewContext(...).RoutesHandler: 406 exactly when the structure admits none of produces + API default, and then the operation handler does not run; otherwise the handler runs once, status 200, " +
 		"Content-Type is one of the offers matched at the maximal (weight, specificity) (a set: the order of produces inside a route is a map order). " +
 		"Non-trivial: a request expects 406, or a decisive header chooses among several declared types, or a weight has more than 3 digits"
@@ -30,15 +30,15 @@ func Props() []kit.Runner {
 	return []kit.Runner{
 		kit.Prop[Case]{ID: "C07", Name: "structured", Rule: ruleStructured, Quick: 50000, Thorough: 1000000,
 			Gen: Gen, Check: Check, Classify: Classify},
-		kit.Prop[Case]{ID: "C07", Name: "qorder", Rule: ruleQOrder, Quick: 20000, Thorough: 300000,
+		kit.Prop[Case]{ID: "C07", Name: "qorder", Rule: ruleQOrder, Quick: 20000, Thorough: 200000,
 			Gen: GenQOrder, Check: Check, Classify: Classify},
-		kit.Prop[MCase]{ID: "C07", Name: "metamorphic", Rule: ruleMeta, Quick: 30000, Thorough: 500000,
+		kit.Prop[MCase]{ID: "C07", Name: "metamorphic", Rule: ruleMeta, Quick: 30000, Thorough: 300000,
 			Gen: GenMeta, Check: CheckMeta, Classify: ClassifyMeta},
-		kit.Prop[RCase]{ID: "C07", Name: "raw", Rule: ruleRaw, Quick: 40000, Thorough: 600000,
+		kit.Prop[RCase]{ID: "C07", Name: "raw", Rule: ruleRaw, Quick: 40000, Thorough: 400000,
 			Gen: GenRaw, Check: CheckRaw, Classify: ClassifyRaw},
-		kit.Prop[ECase]{ID: "C07", Name: "encoding", Rule: ruleEnc, Quick: 30000, Thorough: 400000,
+		kit.Prop[ECase]{ID: "C07", Name: "encoding", Rule: ruleEnc, Quick: 30000, Thorough: 250000,
 			Gen: GenEnc, Check: CheckEnc, Classify: ClassifyEnc},
-		kit.Prop[HCase]{ID: "C07", Name: "handler406", Rule: ruleHandler, Quick: 1500, Thorough: 12000,
+		kit.Prop[HCase]{ID: "C07", Name: "handler406", Rule: ruleHandler, Quick: 1200, Thorough: 8000,
 			Gen: GenHandler, Check: CheckHandler, Classify: ClassifyHandler},
 	}
 }
